@@ -115,6 +115,23 @@ PROPS = {
         'level_text': 'Verus proves, separately for each of 85 opcodes (one copy of the REAL match_opcode body per opcode, verified under the precondition "the opcode is X"), that the resulting main and alt stacks are exactly bsv_step(X, stacks) as written from the Bitcoin SV script specification, and that the call fails exactly when bsv_step is None (missing operands, out-of-range index / position, unequal operand lengths, division by zero): constants, flow NOPs, VERIFY, all stack / alt-stack / splice / bitwise / comparison / arithmetic / hashing opcodes; script numbers of any size are decoded sign-magnitude little-endian and results re-encoded minimally (push_bigint, to_bigint proved against scriptnum / enc_scriptnum); truthiness is proved for every byte string; pushes put their payload on the stack; IF / NOTIF pop the condition and splice in exactly the selected branch. OP_RETURN, OP_LSHIFT, OP_RSHIFT are known findings.',
         'level_note': TB,
     },
+    'C15': {
+        'units': {
+            'interp_sig': ['*'],
+            'interp': ['Interpreter::match_opcode#OP_CODESEPARATOR*', 'Interpreter::match_opcode#OP_CHECKSIG*', 'Interpreter::match_opcode#OP_CHECKMULTISIG*'],
+            'ecdsa_glue': ['ECDSA::verify_hashbuf_impl'],
+            'signature_glue': ['SighashSignature::from_bytes_impl'],
+            'sighash_legacy': ['Transaction::sighash_preimage_impl'],
+        },
+        'rlimit': 40,
+        'assumptions': ['ECDSA verification, SEC1 point decoding, DER decoding and SHA-256 are uninterpreted functions (k256 / sha2 assumed): "valid ECDSA signature by the key over the digest" is ecdsa_verify(sec1_point(key), reduce_be(sha256d(preimage)), der_dec(sig)) by definition', SHA,
+                        'in unit interp the verdicts of checksig / multisig are uninterpreted functions of (stack, code separator offset, transaction) and their stack-protocol / frame clauses are assumed there; those clauses are proved on the real bodies in unit interp_sig',
+                        'quantifier restriction: the preimage clause is stated for the twelve standard flag bytes; bare FORKID (0x40) and ANYONECANPAY (0x80), which SigHash::try_from also accepts, are outside the property and undecided',
+                        'NOT decided here: (a) the code-separator position is recorded as an index into the spliced run-time element list and compared with the number of top-level elements of the unlocking script, so the proved subscript is "locking-script elements from index max(0, offset - |unlocking elements|)"; that this equals "after the most recently executed code separator" holds only while no conditional has been spliced in before it - scripts with IF/NOTIF before a code separator are not covered (recorded as limit, see DESIGN.md C15); (b) that spends assembled and signed through the library API are accepted (needs sign/verify consistency of k256, an assumption about the dependency, plus the ASM builder C17); (c) sensitivity to single-field mutation, which is a collision-resistance property of SHA-256, not a contract'],
+        'design_ref': 'DESIGN.md section 4 C15',
+        'level_text': 'Verus proves on the real bodies of checksig, multisig, verify_tx_signature, calculate_sighash_preimage, Transaction::_verify and TxIn::get_finalised_script_impl: CHECKSIG pops key then signature, takes the last signature byte as the flag, computes exactly the specified preimage (fork-id or legacy algorithm selected by the flag, C03/C10 specs) of the spending transaction at the executing input with the locking-script subscript starting at the recorded code-separator offset and the declared value of the spent output, strictly decodes DER + flag and the SEC1 key, and returns exactly ecdsa_verify(key, reduce(sha256d(preimage)), sig) - no other digest is tried; CHECKMULTISIG follows the n-keys / m-signatures / extra-element stack protocol and returns true exactly when the in-order greedy matching of every signature against the remaining keys (each key tried once) succeeds for all m signatures, each under its own flag-selected preimage; the four opcodes push the verdict / fail unless it is true; OP_CODESEPARATOR records the position after itself; the executed script is parse(unlocking bytes ++ locking bytes). No panic for any stack or transaction (counts beyond the stack, offsets beyond the script are errors).',
+        'level_note': TB + ' Cryptographic primitives are assumed, not verified.',
+    },
     'C16': {
         'units': {
             'interp': ['*'],
@@ -229,7 +246,6 @@ PROPS = {
 }
 
 NOT_CLAIMED = {
-    'C15': 'not reached yet',
     'C17': 'not reached yet',
     'C18': 'not applicable to contract-based verification: the behaviour lives in serde derive expansions and in serde_json/ciborium, there is no function body in /repo to put a contract on (DESIGN.md section 5)',
     'C19': 'not reached yet',
